@@ -216,8 +216,17 @@ func decompressPGLZ(data []byte, rawSize int) ([]byte, error) {
 				b1, b2 := data[pos], data[pos+1]
 				pos += 2
 
-				offset := int(b1) | (int(b2&0xF0) << 4)
-				length := int(b2&0x0F) + 3
+				// tag: high nibble of byte 1 = offset bits 8..11, low nibble = length-3,
+				// byte 2 = offset bits 0..7; length 18 is extended by one more byte
+				offset := (int(b1&0xF0) << 4) | int(b2)
+				length := int(b1&0x0F) + 3
+				if length == 18 {
+					if pos >= len(data) {
+						break
+					}
+					length += int(data[pos])
+					pos++
+				}
 
 				if offset == 0 || offset > len(result) {
 					continue
